@@ -132,6 +132,37 @@ func runC05(r *fw.Runner) {
 	for b := 0; b < r.N(1, 3); b++ {
 		r.Case("canonicalized-from-many-goroutines", func(c *fw.Case) { c05Concurrent(c) })
 	}
+	// very many distinct documents of one length, each already canonical (its canonical form is itself): whatever the canonicalizer
+	// remembers between calls under a short key (a 32-bit digest and the length, say) hands out another document's form sooner or later
+	for b := 0; b < r.N(40, 400); b++ {
+		b := b
+		r.Case("many-distinct-documents-of-one-length", func(c *fw.Case) {
+			const per = 500000
+			buf := []byte(`["0000000000000000"]`)
+			base := uint64(b)*per + uint64(r.Seed)<<40
+			for i := uint64(0); i < per; i++ {
+				// scrambled, so that documents remembered at the same time differ in every position (digests with weak diffusion
+				// seldom collide on neighbours)
+				v := (base + i) * 0x9E3779B97F4A7C15
+				v ^= v >> 29
+				v *= 0xBF58476D1CE4E5B9
+				v ^= v >> 32
+				for d := 17; d >= 2; d-- {
+					buf[d] = "0123456789abcdef"[v&15]
+					v >>= 4
+				}
+				out, err := canonicalizer.MarshalCanonical(buf)
+				if err != nil || string(out) != string(buf) {
+					c.Failf("canonical-document-not-a-fixed-point", map[string]interface{}{"input": string(buf), "output": string(out), "err": fmt.Sprint(err), "documents_before_in_this_case": i},
+						"a canonical document did not canonicalize to itself (after %d other documents of the same length in this case)", i)
+					return
+				}
+			}
+			c.Evals(per)
+			c.Count("distinct-documents-of-one-length", per)
+			c.Sig("one-length-sweep", b%4)
+		})
+	}
 	// (d) fixed vectors against the code under test
 	r.Case("rfc8785-vectors", func(c *fw.Case) {
 		for i, v := range jcsVectors {
